@@ -13,6 +13,9 @@ CHECKS = {
  'C23': dict(cat='proof', tech='deductive: symbolic execution of the real retry-policy methods, postconditions discharged by z3 for all integer inputs',
              text='Every clause of the property is a postcondition on the real method bodies of the four built-in retry policies, '
                   'discharged for all (unbounded) integer arguments on every path; complete for this property.', ref='DESIGN.md §4 C23'),
+ 'C03': dict(cat='proof', tech='deductive: byte-exact spec-layout postconditions on the real write_* primitives, _ProtocolHandler.encode_message/_write_header and every request message send_body/_write_query_params (symbolic field values and byte strings of any length, option presence enumerated per protocol version), rejection obligations; bounded parse-back of real frames by an independent strict spec parser',
+             text='For each of the 8 protocol versions and every presence combination of the options, the body the real encoder writes equals the layout transcribed from the native protocol specifications for all field values (consistency, page size, timestamps, ids, query text, paging state, value bytes of any length); header length/flags/stream/opcode are a postcondition of encode_message for any body. The number of bound values / batch entries is unrolled (0..2). The literal parse-back by an independent parser is a bounded stand-in over all option combinations with fixed values.',
+             ref='DESIGN.md §4 C03'),
  'C31': dict(cat='proof', tech='deductive: lock-invariant proof of MonotonicTimestampGenerator.__call__ for arbitrary clock and history + frame scan',
              text='Lock invariant (all returned timestamps <= last) proved preserved by __call__ for an arbitrary prior state and clock reading; '
                   'strict monotonicity across threads follows for lock-respecting schedules; unprotected reads/writes of `last` fail an obligation.',
